@@ -148,6 +148,27 @@ def run(ctx):
     for (j, b, ref) in bad[:5]:
         res.failures.append({"what": "bytes differ from the published layout when several threads serialise "
                                      "concurrently", "kf": None, "input": {"i": j, "real": b, "reference": ref}})
+    # header after instantiate(): the app id on the wire is the one the subroutine was instantiated for
+    from netqasm.lang.parsing.text import parse_text_subroutine
+    for _ in range(40 if ctx.thorough else 12):
+        a0, a1, a2 = rng.randrange(65536), rng.randrange(65536), rng.randrange(65536)
+        try:
+            sub = parse_text_subroutine("# NETQASM 1.0\n# APPID %d\nset R0 1\n" % a0)
+            before = list(bytes(sub))[:4]
+            sub.instantiate(app_id=a1)
+            mid = list(bytes(sub))[:4]
+            sub.instantiate(app_id=a2)
+            after = list(bytes(sub))[:4]
+        except Exception as exc:
+            res.failures.append({"what": "instantiate/serialise raises", "kf": None, "input": {"error": str(exc)[:200]}})
+            continue
+        res.evaluations += 1
+        res.count("header-after-instantiate")
+        v = list(sub.netqasm_version)
+        want = [v + [a & 255, a >> 8] for a in (a0, a1, a2)]
+        if [before, mid, after] != want:
+            res.failures.append({"what": "subroutine header does not carry the app id the subroutine was instantiated for",
+                                 "kf": None, "input": {"app_ids": [a0, a1, a2], "headers": [before, mid, after]}})
     # subroutine header
     for app in [0, 1, 255, 256, 0x1234, 65535] + [rng.randrange(65536) for _ in range(20)]:
         for ver in [(0, 0), (0, 10), (255, 1), (rng.randrange(256), rng.randrange(256))]:
